@@ -431,7 +431,8 @@ class Sym:
 
     def __round__(self, n=None):
         if n is not None:
-            raise Inconclusive("round(x, n) of a symbolic value")
+            # decimal rounding is not modelled: an uninterpreted function of x (used for labels / cache keys only)
+            return cur().uf1(f"round_{n}_digits", self)
         if self.is_int:
             return self
         return cur().round_half_even(self)
@@ -733,6 +734,7 @@ class Ctx:
         self.pc = []
         self.pc_vars = []
         self.pc_def = []
+        self.known = {}
         self._last_model = None
 
     # ---- symbol creation
@@ -923,6 +925,15 @@ class Ctx:
             return True
         if z3.is_false(z):
             return False
+        # a condition already decided on this path (or its negation) is not asked again
+        neg = z.arg(0) if z3.is_not(z) else None
+        hit = self.known.get(z.get_id())
+        if hit is not None and hit[0].eq(z):
+            return hit[1]
+        if neg is not None:
+            hit = self.known.get(neg.get_id())
+            if hit is not None and hit[0].eq(neg):
+                return not hit[1]
         if self.pos < len(self.prefix):
             d = self.prefix[self.pos]
             if isinstance(d, tuple):
@@ -930,6 +941,7 @@ class Ctx:
             self.pos += 1
             self.decisions.append(d)
             self._add(z if d else z3.Not(z))
+            self.known[z.get_id()] = (z, d)
             return d
         rt = self._check(z)
         rf = self._check(z3.Not(z))
@@ -948,6 +960,7 @@ class Ctx:
         self.pos += 1
         self.decisions.append(d)
         self._add(z if d else z3.Not(z))
+        self.known[z.get_id()] = (z, d)
         return d
 
     def concretize_int(self, z, limit=64):
